@@ -173,6 +173,29 @@ func caseRelay(r *mon.Rec, idx int) {
 		if !check("built", cur) {
 			return
 		}
+		// "any relay chain": the hop counts a chain carries are whatever the relays on the path wrote (agents that do
+		// not count, that start at 0 again, arbitrary values); finding a level or the innermost message follows the
+		// nesting, not the counters
+		if mode := rng.IntN(4); mode != 0 {
+			var node dhcpv6.DHCPv6 = cur
+			for node != nil && node.IsRelay() {
+				rel := node.(*dhcpv6.RelayMessage)
+				switch mode {
+				case 1:
+					rel.HopCount = 0
+				case 2:
+					rel.HopCount = uint8(rng.UintN(256))
+				case 3:
+					rel.HopCount = uint8(rng.UintN(2))
+				}
+				node = rel.Options.RelayMessage()
+			}
+			r.Count("chains_with_arbitrary_hop_counts", 1)
+			if !check("built-anyhops", cur) {
+				return
+			}
+		}
+		chainTree := proj.M6(cur).String()
 		// also after a trip over the wire
 		wired, err := dhcpv6.FromBytes(cur.ToBytes())
 		if err != nil {
@@ -239,6 +262,14 @@ func caseRelay(r *mon.Rec, idx int) {
 				fail("relayrepl-inner:"+src.tag, "innermost message of the relay-reply is not the given reply (%s)", rdesc)
 				return
 			}
+		}
+		// building a reply consumes nothing: the forward chains (the built one and the decoded one) are what they were
+		if proj.M6(cur).String() != chainTree || proj.M6(wired).String() != chainTree || proj.M6(reply).String() != replyTree {
+			fail("relayrepl-changes-input", "NewRelayReplFromRelayForw changed the relay-forward chain or the reply it was given: forward now %.300s", proj.M6(cur).String())
+			return
+		}
+		if !check("built-after-reply", cur) || !check("wire-after-reply", wired) {
+			return
 		}
 		// wrong inputs are errors, not values or panics
 		if _, err := dhcpv6.NewRelayReplFromRelayForw(nil, reply); err == nil {
@@ -307,7 +338,13 @@ func caseBuilder(r *mon.Rec, idx int) {
 	fail := func(key, f string, a ...any) {
 		r.Violate("C16:"+key, fmt.Sprintf("type %d options %s: ", mt, desc)+fmt.Sprintf(f, a...), rp)
 	}
+	mTree := proj.M6(m).String()
 	pan, val, st := mon.Guard(func() {
+		defer func() {
+			if proj.M6(m).String() != mTree {
+				fail("builder-changes-input", "the message the builders were given changed: %.200s -> %.200s", mTree, proj.M6(m).String())
+			}
+		}()
 		// ADVERTISE from SOLICIT
 		adv, err := dhcpv6.NewAdvertiseFromSolicit(m)
 		okIn := mt == 1 && has("C")
